@@ -75,7 +75,6 @@ HandlerAsk(fs, adjust, t) == FirstNonNaN(fs, adjust, t)
 HandlerMid(fs, adjust, t) == FirstNonNaN(fs, adjust, t)        \* (bid + bid) / 2
 
 (* ---------------- properties -------------------------------------------- *)
-Truncate(f, t) == [d \in { x \in DOMAIN f : At(x, 0) <= t } |-> f[d]]     \* rows dated at or before t's day... 
 \* rows whose OPEN time is at or before t are all that may matter
 Past(f, t)     == [d \in { x \in DOMAIN f : At(x, OPEN) <= t } |-> f[d]]
 
